@@ -1322,13 +1322,14 @@ func (h *history) oracle(id uint64, b *bodyT, w winInfo, cls int, vsBefore vset,
 		}
 	}
 	if w.kind == 1 {
+		_, usedBefore := h.usedTx[w.tx.hashID] // the harness's own record, independent of the processed store
 		ok := matches(b, id, h.gas[id], vsBefore, h.sigs[id], w.tx.spec)
 		switch {
 		case (accepted || stateEffect) && !ok:
 			h.run.Violate("C07:effects-for-non-matching-tx", fmt.Sprintf("message %d (kind %d): a transaction whose call differs from the message's was accepted (class %d, store effect %v)", id, b.Kind, cls, stateEffect), replay)
 		case (accepted || stateEffect) && w.status != 1:
 			h.run.Violate("C07:effects-on-failed-receipt", fmt.Sprintf("message %d (kind %d): receipt status %d, yet accepted (class %d, store effect %v)", id, b.Kind, w.status, cls, stateEffect), replay)
-		case (accepted || stateEffect) && wasProcessed:
+		case (accepted || stateEffect) && (wasProcessed || usedBefore):
 			h.run.Violate("C07:tx-accepted-twice", fmt.Sprintf("message %d (kind %d): transaction already used for message %d accepted again", id, b.Kind, h.usedTx[w.tx.hashID]), replay)
 		}
 		if accepted || stateEffect {
@@ -1721,6 +1722,14 @@ func runHistory(t *testing.T, run *emit.Run, idx int) {
 				t.Logf("DISAGREE id=%d cls=%d kind=%d gas=%d/%d vsid=%d nsigs=%d/%d pad=%v stored=%+v", m.id, cls, b.Kind, h.gas[m.id], m.raw.GetGasEstimate(), h.vsid[m.id], len(h.sigs[m.id]), len(m.raw.GetSignData()), m.raw.GetPublicAccessData(), cm)
 			}
 			h.oracle(m.id, b, w, cls, vs, eff, was)
+			if w.kind == 1 && (cls == 1 || cls == 2) { // refused for good: what does the relayer's record say?
+				for _, rr := range h.observe(cls).relay {
+					if rr[0] == int64(m.id) && rr[1] == 1 {
+						run.Violate("C07:relay-success-recorded-for-refused-tx", fmt.Sprintf("message %d: transaction refused (class %d) but the metrix record of the relayer says WasRelayedSuccessfully", m.id, cls),
+							map[string]any{"part": "B", "seed": run.Seed, "history": append([]string{}, h.log...)})
+					}
+				}
+			}
 			h.record(fmt.Sprintf("C07.XAttest %d %s", m.id, coqSpawn(sp, cls != 4)), cls)
 		default: // the consensus end-blocker loop
 			// dry run on a cache context, message by message, to learn which follow-ups fail / what they queue
@@ -1834,6 +1843,118 @@ func runHistory(t *testing.T, run *emit.Run, idx int) {
 	_ = json.Marshal
 }
 
+
+// runTwin: the one situation in which a single remote transaction matches two queued messages —
+// two valset updates with the same new valset, relayer, gas estimate and signers (update_valset
+// carries no message id).  The transaction is accepted for the first, must be refused for the
+// second (already processed), and a different transaction with the same call data is accepted.
+func runTwin(t *testing.T, run *emit.Run) {
+	r := run.Rng
+	e := newEnv(t, r, true)
+	p := newPools(r)
+	h := &history{t: t, run: run, e: e, p: p, win: map[uint64]winInfo{}, known: map[uint64]*bodyT{}, usedTx: map[int64]uint64{}, done: map[uint64]bool{},
+		vsid: map[uint64]uint64{}, gas: map[uint64]uint64{}, sigs: map[uint64][]sigE{}}
+	logf := func(f string, a ...any) { h.log = append(h.log, fmt.Sprintf(f, a...)) }
+	var snaps []string
+	for _, id := range e.snaps {
+		v, _ := e.snapVS(id)
+		snaps = append(snaps, emit.Pair(emit.ZU(id), v.coq()))
+	}
+	for _, m := range e.queued(t) {
+		_ = e.q(t).Remove(e.ctx, m.id)
+	}
+	b := p.body(kUpdateValset)
+	b.Relayer = e.vals[r.Intn(len(e.vals))].eth.Hex()
+	sid := e.snaps[r.Intn(len(e.snaps))]
+	b.NewVS, _ = e.snapVS(sid)
+	b.Key = sid
+	vid := e.snaps[r.Intn(len(e.snaps))]
+	var ids []uint64
+	for k := 0; k < 2; k++ {
+		id, err := e.f.ConsensusKeeper.PutMessageInQueue(e.ctx, e.queue, b.message(chainName, e.vals[0].addr.String()), &consensus.PutOptions{RequireSignatures: true, RequireGasEstimation: true})
+		if err != nil {
+			t.Fatal(err)
+		}
+		ids = append(ids, id)
+		h.known[id] = b
+		logf("enqueue id=%d kind=2 key=%d (twin)", id, b.Key)
+		h.record("C07.XEnqueue "+b.coq(), 0)
+	}
+	n0 := ids[0]
+	signers := r.Perm(len(e.vals))[:1+r.Intn(3)]
+	for _, id := range ids {
+		if err := e.f.ConsensusKeeper.SetMessagePublicAccessData(e.ctx, e.vals[0].addr, &consensustypes.MsgSetPublicAccessData{MessageID: id, QueueTypeName: e.queue, Data: []byte{1}, ValsetID: vid}); err != nil {
+			t.Fatal(err)
+		}
+		h.vsid[id] = vid
+		h.record(fmt.Sprintf("C07.XValset %d %d", id, vid), 0)
+		for _, k := range signers {
+			v := e.vals[k]
+			m, err := e.q(t).GetMsgByID(e.ctx, id)
+			if err != nil {
+				t.Fatal(err)
+			}
+			sg, err := e.sign(m, v)
+			if err != nil {
+				t.Fatal(err)
+			}
+			if err := e.f.ConsensusKeeper.AddMessageSignature(e.ctx, v.addr, []*consensustypes.ConsensusMessageSignature{{Id: id, QueueTypeName: e.queue, Signature: sg, SignedByAddress: v.eth.Hex()}}); err != nil {
+				t.Fatal(err)
+			}
+			h.sigs[id] = append(h.sigs[id], sigE{v.eth, sg})
+			h.record(fmt.Sprintf("C07.XSign %d %s", id, emit.Pair(emit.ZI(addrID(v.eth)), emit.ZI(tab.id(sg)))), 0)
+		}
+	}
+	vs, _ := e.snapVS(vid)
+	i := 1 + r.Intn(len(signers))
+	x1 := h.addTx(b.correct(ids[0], 0, vs, h.sigs[ids[0]], i), 1)
+	x2 := h.addTx(b.correct(ids[0], 0, vs, h.sigs[ids[0]], i), 2) // same call data, another transaction
+	evidence := func(id uint64, x *txInfo) {
+		h.submitEvidence(id, h.proofAny(x, 1, b), []int{0, 1, 2, 3})
+		h.win[id] = winInfo{kind: 1, tx: x, status: 1}
+		logf("evidence id=%d hash#%d", id, x.hashID)
+		h.record(fmt.Sprintf("C07.XEvidence %d (C07.XTx %d %s 1)", id, x.hashID, x.spec.coq()), 0)
+	}
+	attest := func(id uint64, viaBlock bool) int {
+		w := h.win[id]
+		was := e.evm.VerifC07IsTxProcessed(e.ctx, w.tx.tx)
+		f0 := e.facts(t)
+		var cls int
+		var err error
+		if viaBlock {
+			err = e.f.ConsensusKeeper.CheckAndProcessAttestedMessages(e.ctx)
+			cls = classify(err)
+		} else {
+			cls, err = e.attestOne(t, e.ctx, id)
+		}
+		eff := diffFacts(f0, e.facts(t))
+		h.effects = append(h.effects, eff...)
+		logf("attest id=%d block=%v -> class %d (%v) effects=%v", id, viaBlock, cls, err, eff)
+		h.oracle(id, b, w, cls, vs, eff, was)
+		if viaBlock {
+			res := 0
+			if err != nil {
+				res = 4
+			}
+			h.record("C07.XEndBlock []", res)
+		} else {
+			h.record(fmt.Sprintf("C07.XAttest %d %s", id, coqSpawn(nil, cls != 4)), cls)
+		}
+		return cls
+	}
+	evidence(ids[0], x1)
+	c1 := attest(ids[0], r.Intn(2) == 0)
+	evidence(ids[1], x1)
+	c2 := attest(ids[1], r.Intn(2) == 0)
+	c3 := -1
+	if h.ids()[ids[1]] { // still queued (it always is on the pinned tree: the reuse is refused without a flush)
+		evidence(ids[1], x2)
+		c3 = attest(ids[1], false)
+	}
+	run.Count("B.twin", fmt.Sprintf("first=%d reuse=%d fresh=%d", c1, c2, c3))
+	run.Case(fmt.Sprintf("C07.CHistory %s %d %s", emit.List(snaps), n0, emit.List(h.steps)), true, map[string]any{"history": h.log})
+}
+
 func TestCorr(t *testing.T) {
 	run := emit.Start("C07", 1200)
 	loadABI(t)
@@ -1843,7 +1964,8 @@ func TestCorr(t *testing.T) {
 		"Part B: one history per case on the integration fixture (real evm/consensus/valset/staking/metrix/skyway keepers, 4 validators with real " +
 		"secp256k1 keys, two snapshots): enqueue / sign / gas / public-access valset / fee replacement / evidence (right, corrupted, reused, fresh " +
 		"transaction; receipt status 1, 0, absent; error proof; split vote) / attestRouter on one message / consensus end-blocker loop; " +
-		"non-trivial = at least one transaction accepted and one refused")
+		"non-trivial = at least one transaction accepted and one refused; every 8th history is the twin scenario: two identical valset updates signed by the " +
+		"same validators, the first one's transaction offered to the second (must be refused), then an equal call in another transaction")
 	nB := run.N / 12
 	if v := os.Getenv("VERIF_C07_HISTORIES"); v != "" {
 		fmt.Sscan(v, &nB)
@@ -1851,6 +1973,10 @@ func TestCorr(t *testing.T) {
 	nA := run.N - nB
 	partA(t, run, nA)
 	for i := 0; i < nB; i++ {
+		if i%8 == 7 {
+			runTwin(t, run)
+			continue
+		}
 		runHistory(t, run, i)
 	}
 	if err := run.Finish("Evm.Attest Corr.C07", "C07.case", "C07.check"); err != nil {
